@@ -85,7 +85,9 @@ def same(a, b):
         if 'value' in a.attrs and len(a.attrs) == 1:            # enum member
             return S.eq(a.attrs['value'], b.attrs['value'])
         r = True
-        for f in sorted(set(a.attrs) | set(b.attrs)):
+        # "field for field": the declared fields of the class (private bookkeeping attributes are not part of the value)
+        fields = a.cls.class_attrs.get('_fields') if hasattr(a.cls, 'class_attrs') else None
+        for f in (sorted(fields) if isinstance(fields, tuple) else sorted(set(a.attrs) | set(b.attrs))):
             if f not in a.attrs or f not in b.attrs:
                 return False
             r = ops.and_(r, S.term_bool(same(a.attrs[f], b.attrs[f])) if hasattr(S, 'term_bool') else _sb(same(a.attrs[f], b.attrs[f])))
@@ -190,6 +192,13 @@ for x in values:
             if not eq(x, y): bad.append("%%s: %%r came back as %%r" %% (how, x, y))
         except Exception as e:
             bad.append("%%s: %%r raised %%r" %% (how, x, e))
+x = Lists(li=[1], ls=["a"], lc=[Color.RED], ll=[leaf(0)])
+x.toJson(); x.ls = ["p", "q"]; x.toJson(); x.li.append(5); x.ll[0].n = 9
+try:
+    y = Lists.fromJson(x.toJson())
+    if not eq(x, y): bad.append("encoded, changed in place, encoded again: %%r came back as %%r" %% (x, y))
+except Exception as e:
+    bad.append("encoded, changed in place, encoded again: %%r raised %%r" %% (x, e))
 for b in bad[:6]: print(b[:300])
 print("%%d of %%d round trips do not reproduce the object" %% (len(bad), 2 * len(values)))
 sys.exit(1 if bad else 0)
@@ -253,3 +262,26 @@ for _shape, _ns in (('Basic', (0,)), ('Lists', (None, 2)), ('Maps', (None, 1, 2)
                 return dict(cls=ClassVal(ip.repo.cls(MOD + '.' + _shape)), record=through_json_text(ip, j))
             replay = replay_json
             ensures = {'reproduces-the-object-field-for-field': lambda result, ghost: same(ghost.x, result)}
+
+
+# ------------------------------------------------------------------------------------------ an object that was encoded before
+@contract('serializable.Serializable.fromJson', props=['C15'], variant='roundtrip-after-an-earlier-toJson-and-mutation')
+class _:
+    """toJson describes the CURRENT field values: an object that was already encoded once, then changed in place (an element
+    appended to a list field, a field of a nested object assigned, a whole field re-assigned), round-trips like a fresh one"""
+    def setup(E):
+        ip = E.ip
+        x = make_instance(E, 'Lists', 1)
+        try:
+            ip.call(ip.getattr(x, 'toJson'), [], {})
+            ip.setattr(x, 'ls', PyList([E.str('re0'), E.str('re1')]), None)
+            ip.call(ip.getattr(x, 'toJson'), [], {})
+            ip.getattr(x, 'li').items.append(E.int('appended'))
+            ip.setattr(ip.getattr(x, 'll').items[0], 'n', E.int('assigned'), None)
+            j = ip.call(ip.getattr(x, 'toJson'), [], {})
+        except PyExc:
+            raise PathEnd()
+        E.ghost('x', x)
+        return dict(cls=ClassVal(ip.repo.cls(MOD + '.Lists')), record=j)
+    replay = replay_json
+    ensures = {'reproduces-the-object-field-for-field': lambda result, ghost: same(ghost.x, result)}
